@@ -418,6 +418,8 @@ package parsley
 //@   ensures  [self-last;C13] !stop ==> GhostVisit(GhostVisitLen-1) == node
 //@   ensures  [walked;C13] GhostWalked(node) && WalkedKept()
 //@   ensures  [children-walked;C13] !stop && node != nil && !typeis[Walkable](node) && typeis[NonTerminalNode](node) ==> forall i int :: 0 <= i && i < len(old(node.(NonTerminalNode).Children())) ==> GhostWalked(old(node.(NonTerminalNode).Children())[i])
+//@   logs parsley.Walkable.Walk, parsley.NonTerminalNode.Children
+//@   ensures  [walkable-delegates;C13] node != nil && typeis[Walkable](node) ==> ncalls() == 1
 //@   assigns  captures(f), fields[Node](), GhostVisitLen, GhostVisit, GhostStop, GhostWalked
 //@   ghost_return GhostWalked(node) = true
 //@ loop 1 (i rangeindex, kids []Node)
